@@ -211,7 +211,7 @@ func (t *TaskQueueBuilder) Build(taskContext *taskrunner.TaskContext, o Options)
 		}
 	}
 
-	prevInvIds, _ := t.InvClient.GetClusterObjs(t.invInfo)
+	prevInvIds, prevInvErr := t.InvClient.GetClusterObjs(t.invInfo)
 	klog.V(2).Infoln("adding delete/update inventory task")
 	var taskName string
 	if o.Destroy {
@@ -226,6 +226,8 @@ func (t *TaskQueueBuilder) Build(taskContext *taskrunner.TaskContext, o Options)
 		PrevInventory: prevInvIds,
 		DryRun:        o.DryRunStrategy,
 		Destroy:       o.Destroy,
+
+		PrevInventoryErr: prevInvErr,
 	})
 
 	return &TaskQueue{tasks: tasks}
